@@ -391,7 +391,10 @@ def gv_pipeline_requests(ph, qpt, with_symmetry, q_length=None):
         ops = np.array(sym.reciprocal_operations, dtype=int)
         B = np.array(np.linalg.inv(ph.primitive.cell), dtype="double")
         Binv = np.linalg.inv(B)
-        qbz = qpt - np.rint(qpt)
+        from phonopy.harmonic.dynamical_matrix import DynamicalMatrixNAC as _DMNAC
+
+        # the point whose site symmetry is used: D(q) with NAC is not periodic in G, so q itself; q - rint(q) without NAC
+        qbz = np.array(qpt, dtype="double") if isinstance(ph.dynamical_matrix, _DMNAC) else qpt - np.rint(qpt)
         tol = sym.tolerance
         lg = [r for r in ops if (np.abs(qbz - np.dot(r, qbz)) < tol).all()]
         nsel = len(lg)
@@ -620,7 +623,11 @@ def main(run):
         if with_nac:
             ph.nac_params = rand_nac(rng, len(cell))
         ph.force_constants = gen.pair_fc(ph.supercell, 4.5)
-        qpt = np.array([rng.uniform(-0.5, 0.5) for _ in range(3)])
+        if tries % 3 == 0:  # outside the first cell: components in +-[0.5, 2.5]
+            qpt = np.array([rng.uniform(0.5, 2.5) * rng.choice([1, -1]) for _ in range(3)])
+            run.count("gv q outside the first cell")
+        else:
+            qpt = np.array([rng.uniform(-0.5, 0.5) for _ in range(3)])
         reclat = np.linalg.inv(ph.primitive.cell)
         if np.linalg.norm(reclat @ qpt) < 0.02:
             continue
@@ -1198,6 +1205,87 @@ def main(run):
             run.violation("Phonopy.run_qpoints(with_group_velocities=True)", "after-Phonopy.nac_params", "group velocities after Phonopy.nac_params = ... differ from a fresh Phonopy object by %.3g" % np.abs(g1 - g2).max(),
                           dict(cell=name, smat=np.array(smat).tolist(), q=qpt.tolist()))
 
+    # ---------------- designated q-points OUTSIDE the first cell: q - rint(q) lies on a symmetry line/plane although q itself
+    # (for Wang NAC, whose D(q) is not periodic in G) has a smaller site symmetry; group velocities must be the gradient
+    # of the frequencies, Grueneisen parameters the per-q derivative, with and without NAC
+    oc_cases = [("zincblende_prim", np.diag([2, 2, 2]), 1.9, 3.1), ("nacl_prim", np.diag([2, 2, 2]), 1.1, 2.6), ("cscl", np.diag([2, 2, 2]), 1.4, 2.2)]
+    oc_qs = [[1.375, -0.375, 0.375], [0.25, 1.25, -0.75], [1.3, 0.0, 1.0], [2.2, 1.2, 0.0], [1.15, -0.65, 2.35]]
+    for ic_, (name, smat, zb, epsv) in enumerate(oc_cases):
+        cell = make_cell(name)
+        for with_nac in (True, False):
+            trip, vols = [], []
+            for sc_ in (1.0, 1.012, 0.991):
+                c2 = cell.copy()
+                c2.cell = cell.cell * sc_ ** (1.0 / 3)
+                p_ = Phonopy(c2, supercell_matrix=smat, primitive_matrix="P", log_level=0)
+                if with_nac:
+                    p_.nac_params = {"born": np.array([np.eye(3) * zb, -np.eye(3) * zb]), "dielectric": np.eye(3) * epsv, "factor": 14.399652, "method": "wang"}
+                p_.force_constants = gen.pair_fc(p_.supercell, 4.5 * sc_ ** (1.0 / 3))
+                trip.append(p_)
+                vols.append(p_.primitive.volume)
+            ph = trip[0]
+            lat = ph.primitive.cell
+            qsel = [oc_qs[0]] + [oc_qs[1 + (ic_ + k_) % 4] for k_ in range(1 if not thorough else 3)]
+            for qv in qsel:
+                qpt = np.array(qv, dtype=float)
+                info = dict(cell=name, smat=smat.tolist(), q=qpt.tolist(), nac="wang" if with_nac else None, born=zb if with_nac else None, dielectric=epsv if with_nac else None)
+                ph.run_qpoints([qpt], with_group_velocities=True)
+                qd_ = ph.get_qpoints_dict()
+                f0, gv = qd_["frequencies"][0].copy(), qd_["group_velocities"][0].copy()
+                h = 1e-4
+                grad = np.zeros_like(gv)
+                for a_ in range(3):
+                    e = np.zeros(3)
+                    e[a_] = 1
+                    dq = lat @ e
+
+                    def fr(hh):
+                        ph.run_qpoints([qpt + hh * dq])
+                        return ph.get_qpoints_dict()["frequencies"][0]
+
+                    c1 = (fr(h) - fr(-h)) / (2 * h)
+                    c2 = (fr(h / 2) - fr(-h / 2)) / h
+                    grad[:, a_] = (4 * c2 - c1) / 3
+                nm = 0
+                for nu in range(len(f0)):
+                    gaps = np.abs(np.delete(f0, nu) - f0[nu])
+                    if f0[nu] < FMIN or gaps.min() < GAP:
+                        run.count("oracle-gv-skipped-mode(gap/cutoff filter)", section="oracle")
+                        continue
+                    nm += 1
+                    run.count("oracle-gv-mode-outside-first-cell", section="oracle")
+                    if np.abs(grad[nu] - gv[nu]).max() > 1e-5 * max(1.0, np.abs(gv[nu]).max()):
+                        run.violation("Phonopy.run_qpoints(with_group_velocities=True)", "nondegenerate-mode-outside-first-cell" + ("-nac" if with_nac else ""),
+                                      "group velocity %s differs from the finite-difference gradient %s of the mode frequency (band %d, f=%.4f THz) at a q-point "
+                                      "outside the first cell" % (gv[nu].tolist(), grad[nu].tolist(), nu, f0[nu]), info)
+                # Grueneisen parameters at the same q through the band-structure front end vs the per-q derivative
+                q2 = qpt + np.array([0.04, 0.03, -0.05])
+                grq = PhonopyGruneisen(trip[0], trip[1], trip[2])
+                grq.set_band_structure([np.array([qpt, q2])])
+                _, _, bfq, _, bgq = grq.get_band_structure()
+                fac_ = ph.unit_conversion_factor
+                for iq_, qq_ in enumerate((qpt, q2)):
+                    ref, lam_i = indep_gruneisen(trip, vols, qq_, q_direction=(qpt - q2) if with_nac else None)
+                    if ref is None:
+                        continue
+                    lam_b = np.sign(bfq[0][iq_]) * (bfq[0][iq_] / fac_) ** 2
+                    a_, b_ = np.sort(bgq[0][iq_][np.abs(lam_b) > 1e-6]), np.sort(ref[np.abs(lam_i) > 1e-6])
+                    run.count("oracle-gruneisen-outside-first-cell-q", section="oracle")
+                    if len(a_) != len(b_) or (len(a_) and np.abs(a_ - b_).max() > 1e-6 * max(1.0, np.abs(b_).max())):
+                        run.violation("PhonopyGruneisen.get_band_structure", "outside-first-cell" + ("-nac" if with_nac else ""),
+                                      "mode Grueneisen parameters %s at q=%s differ from -(V/2 lambda)<e|dD/dV|e> = %s" % (a_.tolist(), qq_.tolist(), b_.tolist()), info)
+                # the whole pipeline (with the little-group average) against the model
+                line_, gv_i, cert, nsel, hyp, dsz = gv_pipeline_requests(ph, qpt, True)
+                if hyp > 1e-8:
+                    run.broke("correspondence", "eigh certificate of the restricted derivative fails numerically (%.3g)" % hyp, info)
+                gv_lines.append(line_)
+                gv_meta.append(("gvfull", dict(info, symmetrised=True, degenerate_set_sizes=dsz), (gv_i, nsel)))
+                if cert is not None:
+                    gv_lines.append(cert)
+                    gv_meta.append(("lgcert", dict(info, little_group_order=nsel), None))
+                run.case(("gv-outside", name, qpt.tolist(), with_nac), nontrivial=nm > 0)
+                run.count("gv/gruneisen q outside the first cell (%s)" % ("Wang NAC" if with_nac else "no NAC"))
+
     # ---------------- designated long-wavelength q-points: nearly degenerate acoustic branches
     # (bands are grouped with a tolerance of 1e-4 THz on the FREQUENCIES; a mode farther than that from every other band
     # is non-degenerate and its group velocity must be the gradient of its own frequency)
@@ -1269,6 +1357,9 @@ def main(run):
         ph.force_constants = gen.pair_fc(ph.supercell, 4.5)
         x = rng.choice([0.1, 0.15, 0.2, 0.3, 0.35])
         qpt = np.array(rng.choice([[x, 0, 0], [0, x, 0], [x, x, 0], [x, x, x], [x, 0, x], [0.5, x, 0], [x, x, 0.5], [0, 0, x]]), dtype=float)
+        if done % 2 == 1:  # the same symmetry line/plane seen from another cell of reciprocal space
+            qpt = qpt + np.array([rng.choice([-2, -1, 1, 2]), rng.choice([-2, -1, 0, 1, 2]), rng.choice([-1, 0, 1])], dtype=float)
+            run.count("gv high-symmetry q shifted by a reciprocal lattice vector")
         ph.run_qpoints([qpt], with_group_velocities=True)
         qd_ = ph.get_qpoints_dict()
         f0, gv = qd_["frequencies"][0], qd_["group_velocities"][0]
